@@ -547,6 +547,11 @@ class TextXVisitor(RRELVisitor):
                             is_ordered_choice = isinstance(rule, OrderedChoice)
                             inh_added = False
                             for r in rule.nodes:
+                                if isinstance(r, (Not, And)):
+                                    # Syntactic predicates match nothing, so
+                                    # what they refer to is never the result
+                                    # of this rule.
+                                    continue
                                 inh_added |= _add_reffered_classes(r, inh_by)
                                 if inh_added and not is_ordered_choice:
                                     # If not ordered choice we should get out
